@@ -330,6 +330,8 @@ class HostileWorld(World):
             for _ in range(rng.randint(1, 4 if big else 3)):
                 msgs.append(gen_msgspec(rng))
             end = rng.choice(["close", "close", "rst"])
+            if msgs and msgs[0]["base"] == "connect" and not msgs[0].get("mut") and any(m.get("mut") or m["base"] == "garbage" for m in msgs[1:]):
+                end = rng.choice(["close", "rst", "rst"])     # protocol violation after the handshake, then an abortive close
             if commt and rng.random() < 0.3:
                 end = "stall"       # stays connected and silent far longer than COMMTIMEOUT: the server's own timeout must end it
             peers.append({"start": rng.choice([0, 0, 0.01, 0.1, 0.4]), "msgs": msgs, "gap": rng.choice([0, 0, 0.01, 0.2]),
@@ -338,7 +340,7 @@ class HostileWorld(World):
                 "witness_calls": rng.randint(3, 6), "witness_gap": rng.choice([0.0, 0.05, 0.2]),
                 "serializer": rng.choice(SERIALIZERS), "peers": peers,
                 "net": {"p_frag": rng.choice([0.0, 0.3, 0.8]), "shuffle_select": rng.random() < 0.5,
-                        "rst_discards_rx": rng.random() < 0.5, "silent_first_epipe": rng.random() < 0.5},
+                        "rst_discards_rx": rng.random() < 0.3, "silent_first_epipe": rng.random() < 0.5},
                 "p_block": rng.choice([0.0, 0.2, 0.5, 1.0])}
 
     # ------------------------------------------------------------------
